@@ -555,14 +555,14 @@ func init() {
 	register(&CheckSpec{ID: "C18", Patterns: []string{pkgServer, pkgAuthip},
 		Jobs: func(tier string) []*JobCfg {
 			js := []*JobCfg{noMapOrder(job(pkgAuthip, "HarnessC18", 1, 0)), noMapOrder(job(pkgAuthip, "HarnessC18", 2, 0)), noMapOrder(job(pkgAuthip, "HarnessC18", 1, 1)),
-				noMapOrder(job(pkgAuthip, "HarnessC18", 2, 2)), noMapOrder(job(pkgAuthip, "HarnessC18", 2, 1)), noMapOrder(job(pkgServer, "HarnessC18Admit"))}
+				noMapOrder(job(pkgAuthip, "HarnessC18", 2, 2)), noMapOrder(job(pkgAuthip, "HarnessC18", 2, 1)), noMapOrder(job(pkgServer, "HarnessC18Admit")), noMapOrder(job(pkgAuthip, "HarnessC18", 3, 0))}
 			if tier == "thorough" {
-				js = append(js, noMapOrder(job(pkgAuthip, "HarnessC18", 3, 0)), noMapOrder(job(pkgAuthip, "HarnessC18", 3, 3)), noMapOrder(job(pkgAuthip, "HarnessC18", 3, 2)))
+				js = append(js, noMapOrder(job(pkgAuthip, "HarnessC18", 4, 0)), noMapOrder(job(pkgAuthip, "HarnessC18", 3, 3)), noMapOrder(job(pkgAuthip, "HarnessC18", 3, 2)))
 			}
 			return js
 		},
 		Bounds: func(tier string) string {
-			return "every history of 1..2 (thorough 3) rewrites of the whitelist file over {enable on/off} x {every subset of 3 addresses}, one rewrite of each history optionally written as three lines each empty or any of the addresses (duplicate lines), then admission of each address; connection admission for 4 source addresses with the real OnCOpened/closeConn"
+			return "every history of 1..3 (thorough 4) rewrites of the whitelist file over {enable on/off} x {every subset of 3 addresses}, one rewrite of each history optionally written as three lines each empty or any of the addresses (duplicate lines), then admission of each address; connection admission for 4 source addresses with the real OnCOpened/closeConn"
 		},
 		Assumptions: []string{"the file watcher is replaced by calling parseAuthIp directly; yaml.Unmarshal reads the canonical documents the harness writes; cornelk/hashmap is modelled as an ideal map"},
 		Stubs:       []string{stubWorld, "hashmap.HashMap = ideal map", "yaml.Unmarshal = reader of canonical documents", "ioutil.ReadFile = in-memory file table"},
